@@ -130,6 +130,20 @@ def rows(pr):
     return out
 
 
+def canaries(pr):
+    def wrong_route(pr):
+        mod = pr.tree.modules[PLUGINS["us"][0]]
+        inv = {t: sh for sh, ts in (sheet_to_types(mod) or {}).items() for t in ts}
+        return [A.bvc("canary", "case", "SELL_goes_to_Gifts", inv.get("SELL") == "Gifts", mod.relpath)]
+
+    def wrong_column(pr):
+        q = PLUGINS["ie"][0] + ".Generator.__generate"
+        F = A.Fn(pr.tree, q)
+        main = next((lp for lp in A.loops_of(F.node) if any(isinstance(c2, ast.Call) and isinstance(c2.func, ast.Attribute) and c2.func.attr == "_fill_cell" for c2 in ast.walk(lp))), None)
+        w = A.Writer(F.node, main, row_expr="row_indexes[sheet.name]")
+        return [v for v in A.writer_vcs("canary", "", w, "gain_loss_set", {8: "ELT.fiat_cost_basis"}) if "W4" in v.label]
+    return [("sell_routed_to_gifts_must_fail", wrong_route), ("gain_column_bound_to_cost_basis_must_fail", wrong_column)]
+
 MANIFEST_ENTRY = {
     "category": "other",
     "text": ("Routing decided by finite case analysis over the AST-evaluated sheet/type literals of tax_report_us and tax_report_ie against the statement's table "
